@@ -201,6 +201,8 @@ def bounded(chk, label):
 
 def main():
     chk = Check("C19", "proof")
+    # who may write the history of a delayed model: the adaptive DDE solvers change it only through DDEHistory.update, unconditionally per accepted step
+    chk.run_frames()
     fb = bounded(chk, "native-contracts-on-scripted-histories")
     cache = {}
 
